@@ -564,10 +564,9 @@ theorem toStatement_call_eq {env d h args} (hd : IsList d (h :: args)) (ho : Ord
     simp only [coreKeywords, List.mem_cons, List.mem_nil_iff, or_false, not_or] at hk
     obtain ⟨h1, h2, h3, h4, h5, h6, h7, h8⟩ := hk
     simp only [h1, h2, h3, h4, h5, h6, h7, h8, if_false]
-    show (match env.get? s with
-      | some rules => _
-      | none => _) env = _
-    rw [hg]; rfl
+    rw [bind_run]
+    simp only [getEnv, hg]
+    rfl
   | _ => rfl
 
 /-- … so it is never a definition -/
@@ -595,6 +594,20 @@ theorem not_def_sym {env s l} (m : Nat) (df : Def) (env' : SynEnv) :
   cases m with
   | zero => rw [toStatement] at hx; cases hx
   | succ n => rw [toStatement] at hx; cases hx
+
+theorem MeansList.one {ρ σ e v τ} (h : Means σ ρ e v τ) : MeansList ρ σ [e] [v] τ := by
+  have := MeansList.cons h (.nil (ρ := ρ) (σ := τ))
+  rwa [h.erased] at this
+
+/-- `(not e)` where `not` is the native procedure: `#t` exactly when `e` evaluates to `#f` -/
+theorem Means.not_call {σ ρ te tv σ₁ l l'} (hnot : σ.lookup ρ "not" = some (.builtin .not))
+    (ht : Means σ ρ te tv σ₁) : Means σ ρ (.call (.sym "not" l) [te] l') (.bool (!tv.truthy)) σ₁ := by
+  refine Means.call (Means.sym hnot) (MeansList.one (means_erase.mpr ht)) ?_
+  have h : Prim.applyPure (Eval.enter σ₁) .not [tv] = (.ok (.bool (!tv.truthy)), Eval.enter σ₁) := by
+    cases tv <;> try rfl
+    rename_i b; cases b <;> rfl
+  have := MeansApply.builtin (σ := σ₁) (b := .not) (by decide) rfl h
+  rwa [show (Eval.enter σ₁).erase = σ₁.erase from rfl, ht.erased] at this
 
 /-- the syntax environment has the bundled derived forms, and the names the templates use as
 procedures (`not`, `memv`, `null?`) are not keywords of macros -/
